@@ -140,6 +140,38 @@ def eval_config(cfg):
     return dict(cfg=cfg, built=True, cases=n, excluded=exc, bad=bad)
 
 
+# ---------------------------------------------------------------- wildcards of named attribute groups shared by several types
+GW = {'any': dict(attr='namespace="##any"', w=dict(namespace={'##any'}, not_namespace=set(), not_qname=set())),
+      'other': dict(attr='namespace="##other"', w=dict(namespace={'##other'}, not_namespace=set(), not_qname=set())),
+      'local': dict(attr='namespace="##local"', w=dict(namespace={''}, not_namespace=set(), not_qname=set())),
+      'x+tns': dict(attr='namespace="urn:x ##targetNamespace"', w=dict(namespace={'urn:x', 'urn:t'}, not_namespace=set(), not_qname=set())),
+      'x+y': dict(attr='namespace="urn:x urn:y"', w=dict(namespace={'urn:x', 'urn:y'}, not_namespace=set(), not_qname=set()))}
+GNAMES = {'{urn:x}foo': 'x:foo', '{urn:y}foo': 'y:foo', '{urn:t}bar': 't:bar', 'baz': 'baz'}
+
+
+def eval_group_wildcards(args):
+    g, own, ver, order = args
+    import xmlschema, sys, os
+    sys.path.insert(0, os.path.dirname(os.path.dirname(os.path.abspath(__file__))))
+    from specs import wildcard as spec
+    # the narrowed user of the group is declared before or after the plain one (the effective wildcards are computed at build time, in document order)
+    t_narrow = f'<xs:complexType name="N"><xs:attributeGroup ref="t:G"/><xs:anyAttribute {GW[own]["attr"]} processContents="skip"/></xs:complexType>'
+    t_plain = '<xs:complexType name="P"><xs:attributeGroup ref="t:G"/></xs:complexType>'
+    types = t_narrow + t_plain if order else t_plain + t_narrow
+    try:
+        s = _cls(ver)(f'<xs:schema xmlns:xs="http://www.w3.org/2001/XMLSchema" targetNamespace="urn:t" xmlns:t="urn:t"><xs:attributeGroup name="G"><xs:anyAttribute {GW[g]["attr"]} processContents="skip"/></xs:attributeGroup>'
+                      f'{types}<xs:element name="plain" type="t:P"/><xs:element name="narrow" type="t:N"/></xs:schema>')
+    except xmlschema.XMLSchemaException: return None
+    wg = dict(GW[g]['w'], tns='urn:t'); wo = dict(GW[own]['w'], tns='urn:t'); bad = []
+    for name, lex in GNAMES.items():
+        for tag, exp in (('plain', spec.denote_name(wg, name)), ('narrow', spec.denote_name(wg, name) and spec.denote_name(wo, name))):
+            doc = f'<t:{tag} xmlns:t="urn:t" xmlns:x="urn:x" xmlns:y="urn:y" {lex}="1"/>'
+            try: got = s.is_valid(doc)
+            except Exception as e: got = 'raised ' + type(e).__name__
+            if got != exp: bad.append((tag, name, got, exp))
+    return dict(args=args, bad=bad) if bad else False
+
+
 def run(tier, seed, open_findings):
     allc = list(configs())
     sel, exhaustive = part(allc, tier, seed, 16)
@@ -149,12 +181,20 @@ def run(tier, seed, open_findings):
         for b in r['bad']:
             failures.append(dict(case=dict(cfg=list(r['cfg']), attrs=b['attrs'], use_defaults=b.get('use_defaults')), observed=b['got'], required=b['exp']))
     cases = sum(r['cases'] for r in res); exc = sum(r['excluded'] for r in res)
-    return [result('C03.attribute_sets', f'{len(sel)} of {len(allc)} (declarations, wildcard, class) configurations x subsets <= 3 of a 7-name pool x 3 values', cases, failures,
+    gjobs = [(g, own, ver, order) for g in GW for own in GW for ver in ('1.0', '1.1') for order in (0, 1)]
+    gres = [eval_group_wildcards(j) for j in gjobs]
+    gfail = [dict(case=dict(group_wildcards=list(r['args'])), observed=[list(b) for b in r['bad'][:4]], required='the user of the group alone admits what the group wildcard admits; the narrowed user admits the intersection')
+             for r in gres if r]
+    extra = result('C03.shared_attribute_group_wildcards', f'{len(gjobs)} schemas: a named attribute group with a wildcard used alone by one type and together with an own wildcard by another (5 x 5 constraints, both declaration orders, 2 classes) x 4 attribute names',
+                   len(gjobs) * 8, gfail, exhaustive=True, samples=[dict(group='##any', own='##local')], distinct=sum(1 for r in gres if r is not None) * 8)
+    return [extra, result('C03.attribute_sets', f'{len(sel)} of {len(allc)} (declarations, wildcard, class) configurations x subsets <= 3 of a 7-name pool x 3 values', cases, failures,
                    exhaustive=exhaustive, samples=[dict(decls={'a': USES[2], 'b': USES[4]}, wildcard=WCS[5], attrs={'a': '7'})],
-                   reported={'prohibited-and-wildcard-admits (outside the deciding scope)': exc}, distinct=cases)]
+                   reported={'prohibited-and-wildcard-admits (outside the deciding scope)': exc}, distinct=cases)][::-1]
 
 
 def replay(check_name, case):
+    if 'group_wildcards' in case:
+        r = eval_group_wildcards(tuple(case['group_wildcards'])); return dict(ok=not r, observed=r and r['bad'][:4], required='group wildcard semantics')
     ua, ub, ug, wi, ver = case['cfg']
     import xmlschema
     decls = {k: USES[i] for k, i in (('a', ua), ('b', ub), ('gc', ug)) if USES[i] is not None}
